@@ -284,6 +284,10 @@ func runChunks(c *engine.Ctx) engine.Result {
 		runChunksThroughListener(c) // the layouts are few; the replay re-runs all of them
 		return res
 	}
+	if c.Replay != nil && strings.Contains(string(c.Replay), `"sequence"`) {
+		runChunkSequences(c) // sequences are regenerated from the seed; the replay re-runs them
+		return res
+	}
 	if c.Replay != nil {
 		var cc chunkCase
 		if err := json.Unmarshal(c.Replay, &cc); err != nil {
@@ -372,6 +376,7 @@ func runChunks(c *engine.Ctx) engine.Result {
 		}
 	}
 	// the recombination as the listener performs it
+	runChunkSequences(c)
 	runChunksThroughListener(c)
 	r.Require("listener_recombined_equal:auth", 100)
 	r.Require("listener_recombined_equal:fetch", 100)
@@ -383,4 +388,58 @@ func runChunks(c *engine.Ctx) engine.Result {
 	r.Require("roundtrips_equal", 1)
 	res.Exhaustive = !c.Quick()
 	return res
+}
+
+// runChunkSequences: what one call recombines does not depend on what earlier calls were given. On one
+// goroutine a list that is refused half-way (well-formed chunks followed by one with a broken header) is
+// followed at once by a well-formed list of another payload, under the same or the other prefix; the second
+// result must be exactly the second payload.
+func runChunkSequences(c *engine.Ctx) {
+	r := c.R
+	rng := c.Rng("chunk-sequences")
+	prefixes := []string{nodeenrollment.FetchNodeCredsNextProtoV1Prefix, nodeenrollment.AuthenticateNodeNextProtoV1Prefix}
+	const letters = "ABCDEFGHIJKLMNOPQRSTUVWXYZabcdefghijklmnopqrstuvwxyz0123456789-_"
+	mk := func(n int) string {
+		b := make([]byte, n)
+		for i := range b {
+			b[i] = letters[rng.Intn(len(letters))]
+		}
+		return string(b)
+	}
+	n := c.Pick(400, 4000)
+	for i := 0; i < n; i++ {
+		p1, p2 := prefixes[i%2], prefixes[(i/2)%2]
+		a, b := mk(300+rng.Intn(2000)), mk(1+rng.Intn(1500))
+		la, err := nodetls.BreakIntoNextProtos(p1, a)
+		if err != nil || len(la) < 2 {
+			continue
+		}
+		bad := append([]string{}, la...)
+		bad[len(bad)-1] = p1 + []string{"zz", "-x", "1x-y", ""}[i%4]
+		var e1 error
+		if p, st := engine.Guard(func() { _, e1 = nodetls.CombineFromNextProtos(p1, bad) }); p != nil {
+			r.Violation("panic:combine:"+engine.LibraryFrame(st), fmt.Sprintf("CombineFromNextProtos panicked on a list with a broken last header: %v", p), map[string]any{"kind": "sequence", "i": i})
+			return
+		}
+		if e1 == nil {
+			r.Count("sequence:broken-list-not-refused(not asserted here)", 1)
+		}
+		lb, err := nodetls.BreakIntoNextProtos(p2, b)
+		if err != nil {
+			continue
+		}
+		var got string
+		var e2 error
+		if p, st := engine.Guard(func() { got, e2 = nodetls.CombineFromNextProtos(p2, lb) }); p != nil {
+			r.Violation("panic:combine:"+engine.LibraryFrame(st), fmt.Sprintf("CombineFromNextProtos panicked: %v", p), map[string]any{"kind": "sequence", "i": i})
+			return
+		}
+		r.Eval(fmt.Sprintf(`{"kind":"sequence","i":%d}`, i), true)
+		if e2 != nil || got != b {
+			r.Violation("combine-depends-on-earlier-call", fmt.Sprintf("a well-formed list of a %d-character payload recombined right after a list that was refused half-way (%d good chunks, then a broken header) came back as %d characters, error %v (the payload is a suffix of the result: %v)", len(b), len(la)-1, len(got), e2, strings.HasSuffix(got, b)), map[string]any{"kind": "sequence", "i": i, "first_prefix": p1, "second_prefix": p2, "first_payload": a, "second_payload": b})
+			return
+		}
+		r.Count("sequence:second_call_unaffected_by_refused_first", 1)
+	}
+	r.Require("sequence:second_call_unaffected_by_refused_first", int64(n*9/10))
 }
